@@ -3,7 +3,7 @@ the real library and project the observation into the specification's vocabulary
 Deliberately dumb: attribute reads and constructor calls only."""
 from __future__ import annotations
 
-from .core import outcome, octs, after_pack, decoded, live, scramble, rxbuf, owned
+from .core import outcome, octs, after_pack, decoded, live, scramble, rxbuf, owned, enum_arg
 from .probe import decode_other, poison, twin
 
 
@@ -61,9 +61,10 @@ def _mk_hdr(h, via="ctor"):
     if k == 2:
         from spacepackets.ccsds import SpHeader
         return SpHeader(PacketType(h["type"]), h["apid"], h["count"], h["dlen"], bool(h["shf"]), SequenceFlags(h["flags"]), h["ver"])
-    return SpacePacketHeader(packet_type=PacketType(h["type"]), apid=h["apid"], seq_count=h["count"],
+    K = (h["apid"], h["count"], h["dlen"])
+    return SpacePacketHeader(packet_type=enum_arg(PacketType, h["type"], K), apid=h["apid"], seq_count=h["count"],
                              data_len=h["dlen"], sec_header_flag=bool(h["shf"]),
-                             seq_flags=SequenceFlags(h["flags"]), ccsds_version=h["ver"])
+                             seq_flags=enum_arg(SequenceFlags, h["flags"], K), ccsds_version=h["ver"])
 
 
 def tc_proj(tc):
